@@ -683,6 +683,8 @@ enum PBody {
 }
 #[derive(Clone)]
 struct PRow {
+    /// pool key when it differs from the id (several rows with one id)
+    p: Option<u64>,
     id: u64,
     ent: u64,
     c: i64,
@@ -717,6 +719,8 @@ struct C07Gen<'a> {
     next_row: u64,
     next_edge: u64,
     rows: HashMap<u64, PRow>,
+    /// (group, key): user admins enabled at 100 and disabled at 400 in the stored definition
+    closed_uadmins: Vec<(u64, u64)>,
 }
 
 fn join_u(v: &[u64]) -> String {
@@ -731,8 +735,13 @@ impl<'a> C07Gen<'a> {
             PBody::Name(v) => format!("body=name v={}", v),
             PBody::Absent => "body=none".to_string(),
         };
+        let pk = match r.p {
+            Some(p) => format!("p={} ", p),
+            None => String::new(),
+        };
         self.out.push(format!(
-            "srow id={} ent={} c={} m={} by={} {}{}",
+            "srow {}id={} ent={} c={} m={} by={} {}{}",
+            pk,
             r.id,
             r.ent,
             r.c,
@@ -741,11 +750,11 @@ impl<'a> C07Gen<'a> {
             body,
             if r.sig { "" } else { " sig=0" }
         ));
-        self.rows.insert(r.id, r.clone());
+        self.rows.insert(r.p.unwrap_or(r.id), r.clone());
     }
     fn new_row(&mut self, ent: u64, t: i64, by: u64, body: PBody) -> u64 {
         self.next_row += 1;
-        let r = PRow { id: self.next_row, ent, c: t, m: t, by, body, sig: true };
+        let r = PRow { p: None, id: self.next_row, ent, c: t, m: t, by, body, sig: true };
         self.srow(&r);
         r.id
     }
@@ -773,6 +782,17 @@ impl<'a> C07Gen<'a> {
         l.rows.push(id);
         l.edges.push(e);
         id
+    }
+    /// an entry whose creation date differs from its (history) date, with its placing reference
+    #[allow(clippy::too_many_arguments)]
+    fn entry_cm(&mut self, l: &mut LDef, owner: u64, owner_ent: u64, label: u64, ent: u64, c: i64, m: i64, by: u64, body: PBody) -> u64 {
+        self.next_row += 1;
+        let r = PRow { p: None, id: self.next_row, ent, c, m, by, body, sig: true };
+        self.srow(&r);
+        let e = self.new_edge(owner, owner_ent, label, r.id, c, by, true);
+        l.rows.push(r.id);
+        l.edges.push(e);
+        r.id
     }
     fn emit(&mut self, d: &RDef) {
         self.out.push(format!(
@@ -811,6 +831,11 @@ impl<'a> C07Gen<'a> {
         if self.g.chance(2, 3) {
             let k = *self.g.pick(&[3u64, 5]);
             self.entry(&mut gd.uadmins, gid, 101, 35, 102, t, by, PBody::User(k, true));
+            if t == 100 && by == 0 && self.g.chance(1, 2) {
+                // a user admin with a closed validity window [100, 400)
+                self.entry(&mut gd.uadmins, gid, 101, 35, 102, 400, 0, PBody::User(k, false));
+                self.closed_uadmins.push((gid, k));
+            }
         }
         if let Some(uby) = with_users_by {
             let nu = 1 + self.g.below(2);
@@ -827,18 +852,20 @@ impl<'a> C07Gen<'a> {
 const PROBE_DATES: &str = "99,100,150,200,250,300,400,500,600,800";
 
 fn gen_c07(g: &mut Gen, id: usize) -> Vec<String> {
-    let mut cg = C07Gen { g, out: vec![format!("case id={}", id)], next_row: 100, next_edge: 0, rows: HashMap::new() };
+    let mut cg = C07Gen { g, out: vec![format!("case id={}", id)], next_row: 100, next_edge: 0, rows: HashMap::new(), closed_uadmins: vec![] };
     // ---- the room as its admin (key 0) created it
     let room = 10u64;
-    cg.srow(&PRow { id: room, ent: 100, c: 100, m: 100, by: 0, body: PBody::Name(0), sig: true });
+    cg.srow(&PRow { p: None, id: room, ent: 100, c: 100, m: 100, by: 0, body: PBody::Name(0), sig: true });
     let mut d = RDef { room, ..Default::default() };
     let mut adm = std::mem::take(&mut d.admins);
     cg.entry(&mut adm, room, 100, 32, 102, 100, 0, PBody::User(0, true));
-    let key4_admin = cg.g.chance(1, 2);
+    let key4_admin = cg.g.chance(2, 3);
+    let mut key4_closed = false; // admin in [200, 400) only
     if key4_admin {
         cg.entry(&mut adm, room, 100, 32, 102, 200, 0, PBody::User(4, true));
         if cg.g.chance(1, 2) {
             cg.entry(&mut adm, room, 100, 32, 102, 400, 0, PBody::User(4, false));
+            key4_closed = true;
         }
     }
     d.admins = adm;
@@ -854,7 +881,7 @@ fn gen_c07(g: &mut Gen, id: usize) -> Vec<String> {
     let mut other_rows: Vec<u64> = vec![];
     if cg.g.chance(1, 2) {
         let z = 40u64;
-        cg.srow(&PRow { id: z, ent: 100, c: 100, m: 100, by: 0, body: PBody::Name(0), sig: true });
+        cg.srow(&PRow { p: None, id: z, ent: 100, c: 100, m: 100, by: 0, body: PBody::Name(0), sig: true });
         let mut dz = RDef { room: z, ..Default::default() };
         let mut az = LDef::default();
         cg.entry(&mut az, z, 100, 32, 102, 100, 0, PBody::User(0, true));
@@ -902,7 +929,7 @@ fn gen_c07(g: &mut Gen, id: usize) -> Vec<String> {
     let rounds = 1 + cg.g.below(4);
     for _ in 0..rounds {
         let mut c = d.clone();
-        let kind = cg.g.weighted(&[6, 5, 4, 4, 4, 3, 5, 4, 4, 3, 3, 3, 3, 3, 3, 3, 3, 2, 2, 3]);
+        let kind = cg.g.weighted(&[6, 5, 4, 4, 4, 3, 5, 4, 4, 3, 3, 3, 3, 3, 3, 3, 3, 2, 2, 6, 4, 7, 5, 2]);
         let t = *cg.g.pick(&[150i64, 250, 300, 350, 500, 600]);
         let gi = cg.g.below(c.auths.len());
         let gid = c.auths[gi].id;
@@ -1137,7 +1164,7 @@ fn gen_c07(g: &mut Gen, id: usize) -> Vec<String> {
             // the room row replaced (other author, other entity, other date), plus an honest entry so that there is an update
             14 | 15 => {
                 let (ent, by, m) = *cg.g.pick(&[(100u64, 6u64, 700i64), (1, 6, 700), (100, 0, 700), (100, 6, 50), (2, 0, 100)]);
-                cg.srow(&PRow { id: room, ent, c: 100, m, by, body: PBody::Name(0), sig: true });
+                cg.srow(&PRow { p: None, id: room, ent, c: 100, m, by, body: PBody::Name(0), sig: true });
                 let mut l = std::mem::take(&mut c.auths[gi].users);
                 cg.entry(&mut l, gid, 101, 34, 102, t, 0, PBody::User(2, true));
                 c.auths[gi].users = l;
@@ -1146,7 +1173,7 @@ fn gen_c07(g: &mut Gen, id: usize) -> Vec<String> {
             16 => {
                 let by = *cg.g.pick(&[0u64, 6, 3]);
                 let m = *cg.g.pick(&[700i64, 100, 50]);
-                cg.srow(&PRow { id: gid, ent: 101, c: 100, m, by, body: PBody::Name(2), sig: true });
+                cg.srow(&PRow { p: None, id: gid, ent: 101, c: 100, m, by, body: PBody::Name(2), sig: true });
                 honest = by == 0 && m == 700;
             }
             // two entries of one key at the same date, then the same two in the other order
@@ -1168,6 +1195,117 @@ fn gen_c07(g: &mut Gen, id: usize) -> Vec<String> {
                 c.auths[gi].users = l;
                 honest = true;
             }
+            // one candidate carries the revocation of admin 4 AND entries signed by key 4 dated after it
+            // (a peer that lags behind by one administrator change)
+            19 if key4_admin && !key4_closed => {
+                let mut l = std::mem::take(&mut c.admins);
+                cg.entry(&mut l, room, 100, 32, 102, 400, 0, PBody::User(4, false));
+                c.admins = l;
+                let tt = *cg.g.pick(&[450i64, 500, 600]);
+                match cg.g.below(4) {
+                    0 => {
+                        let mut l = std::mem::take(&mut c.auths[gi].rights);
+                        cg.entry(&mut l, gid, 101, 33, 103, tt, 4, PBody::Right(0, true, true));
+                        c.auths[gi].rights = l;
+                    }
+                    1 => {
+                        let mut l = std::mem::take(&mut c.auths[gi].users);
+                        cg.entry(&mut l, gid, 101, 34, 102, tt, 4, PBody::User(4, true));
+                        c.auths[gi].users = l;
+                    }
+                    2 => {
+                        let mut l = std::mem::take(&mut c.auths[gi].uadmins);
+                        cg.entry(&mut l, gid, 101, 35, 102, tt, 4, PBody::User(4, true));
+                        c.auths[gi].uadmins = l;
+                    }
+                    _ => {
+                        cg.group(&mut c, tt, 4, None);
+                    }
+                }
+            }
+            // the honest counterpart: a new admin and that admin's own entries in one candidate
+            20 => {
+                let mut l = std::mem::take(&mut c.admins);
+                cg.entry(&mut l, room, 100, 32, 102, 300, 0, PBody::User(1, true));
+                c.admins = l;
+                if cg.g.chance(1, 2) {
+                    let mut l = std::mem::take(&mut c.auths[gi].users);
+                    cg.entry(&mut l, gid, 101, 34, 102, 350, 1, PBody::User(3, true));
+                    c.auths[gi].users = l;
+                } else {
+                    cg.group(&mut c, 350, 1, None);
+                }
+                honest = true;
+            }
+            // creation date inside a past validity window of the signer, history date after its revocation
+            // (or, as a control, both inside the window)
+            21 => {
+                let inside = cg.g.chance(1, 4);
+                let (cd, md) = if inside { (250i64, 300i64) } else { (250, *cg.g.pick(&[450i64, 500, 700])) };
+                let closed_ua: Vec<u64> = cg.closed_uadmins.iter().filter(|x| x.0 == gid).map(|x| x.1).collect();
+                let sub = cg.g.below(5);
+                if sub == 0 && !closed_ua.is_empty() {
+                    let by = closed_ua[0];
+                    let uk = 1 + cg.g.below(3) as u64;
+                    let mut l = std::mem::take(&mut c.auths[gi].users);
+                    cg.entry_cm(&mut l, gid, 101, 34, 102, cd, md, by, PBody::User(uk, true));
+                    c.auths[gi].users = l;
+                } else if key4_closed {
+                    match sub {
+                        1 => {
+                            let mut l = std::mem::take(&mut c.admins);
+                            cg.entry_cm(&mut l, room, 100, 32, 102, cd, md, 4, PBody::User(4, true));
+                            c.admins = l;
+                        }
+                        2 => {
+                            let mut l = std::mem::take(&mut c.auths[gi].rights);
+                            cg.entry_cm(&mut l, gid, 101, 33, 103, cd, md, 4, PBody::Right(0, true, true));
+                            c.auths[gi].rights = l;
+                        }
+                        3 => {
+                            let mut l = std::mem::take(&mut c.auths[gi].uadmins);
+                            cg.entry_cm(&mut l, gid, 101, 35, 102, cd, md, 4, PBody::User(4, true));
+                            c.auths[gi].uadmins = l;
+                        }
+                        _ => {
+                            let mut l = std::mem::take(&mut c.auths[gi].users);
+                            cg.entry_cm(&mut l, gid, 101, 34, 102, cd, md, 4, PBody::User(4, true));
+                            c.auths[gi].users = l;
+                        }
+                    }
+                } else {
+                    // an honest entry whose creation date is earlier than its history date
+                    let mut l = std::mem::take(&mut c.auths[gi].users);
+                    cg.entry_cm(&mut l, gid, 101, 34, 102, 250, md, 0, PBody::User(2, true));
+                    c.auths[gi].users = l;
+                    honest = true;
+                }
+            }
+            // two rows with ONE id in a list: the stored entry first, then a row signed by somebody else;
+            // plus an honest new entry so that the definition is written
+            22 => {
+                let signer = *cg.g.pick(&[5u64, 2, 1]);
+                if cg.g.chance(1, 2) {
+                    let victim = c.admins.rows[0];
+                    cg.next_row += 1;
+                    let pk = cg.next_row + 5000;
+                    cg.srow(&PRow { p: Some(pk), id: victim, ent: 102, c: t, m: t, by: signer, body: PBody::User(signer, true), sig: true });
+                    let e = cg.new_edge(room, 100, 32, victim, t, signer, true);
+                    c.admins.rows.push(pk);
+                    c.admins.edges.push(e);
+                } else if !c.auths[gi].users.rows.is_empty() {
+                    let victim = c.auths[gi].users.rows[0];
+                    cg.next_row += 1;
+                    let pk = cg.next_row + 5000;
+                    cg.srow(&PRow { p: Some(pk), id: victim, ent: 102, c: t, m: t, by: signer, body: PBody::User(signer, true), sig: true });
+                    let e = cg.new_edge(gid, 101, 34, victim, t, signer, true);
+                    c.auths[gi].users.rows.push(pk);
+                    c.auths[gi].users.edges.push(e);
+                }
+                let mut l = std::mem::take(&mut c.auths[gi].users);
+                cg.entry(&mut l, gid, 101, 34, 102, t, 0, PBody::User(3, true));
+                c.auths[gi].users = l;
+            }
             // nothing new at all (re-sent definition)
             _ => {}
         }
@@ -1179,7 +1317,7 @@ fn gen_c07(g: &mut Gen, id: usize) -> Vec<String> {
             d = c;
         } else {
             // restore the pool rows this round may have overwritten
-            let r0 = PRow { id: room, ent: 100, c: 100, m: 100, by: 0, body: PBody::Name(0), sig: true };
+            let r0 = PRow { p: None, id: room, ent: 100, c: 100, m: 100, by: 0, body: PBody::Name(0), sig: true };
             if let Some(r) = cg.rows.get(&room) {
                 if r.by != 0 || r.ent != 100 || r.m != 100 {
                     cg.srow(&r0);
